@@ -89,7 +89,7 @@ CHECKS = {
             "DESIGN.md §3 C19"),
     "C20": ("exploration",
             "runtime monitoring: close/reopen differential - every version reloaded by a fresh tree and compared with the recorded hash and the model; continuation compared with the reference; prune + reopen; snapshot round trips (SaveSnapshot/LoadSnapshot, Export -> WriteSnapshot -> LoadSnapshot in both orders); commits under a foreign SQLite write lock (acknowledged commits must reload)",
-            "For every version t of a generated history LoadVersion(t) on a fresh tree must reproduce hash, size, reads and iteration (targets on / just after / far after a checkpoint); continuing from the reloaded latest must reproduce the reference's hashes; after DeleteVersionsTo(n) has drained (bounded polling of the SQLite files) the latest version and all versions from the last checkpoint not after n must load; snapshots import to the source version's hash and contents. Every 32nd case is a prune with a large backlog (3000 keys) that is still running when the history goes on and the next checkpoint is saved (overlap observed and counted): the process must survive and versions from the prune point on must reload exactly.",
+            "For every version t of a generated history LoadVersion(t) on a fresh tree must reproduce hash, size, reads and iteration (targets on / just after / far after a checkpoint); continuing from the reloaded latest must reproduce the reference's hashes; after DeleteVersionsTo(n) has drained (bounded polling of the SQLite files) the latest version and all versions from the last checkpoint not after n must load; snapshots import to the source version's hash and contents. Every 32nd case is a prune with a large backlog (3000 keys) that is still running when the history goes on and the next checkpoint is saved (overlap observed and counted): the process must survive and versions from the prune point on must reload exactly. Every 4th case also requests a prune and closes the tree at once, six times: the process must survive and the latest version must reload.",
             "Trusted: M, R. Background pruning has no completion signal: not draining within the bound is INCONCLUSIVE. A store written by WriteSnapshot is read back with LoadSnapshot (as the property states), not with LoadVersion.",
             "DESIGN.md §3 C20"),
     "C04": ("exploration",
